@@ -56,7 +56,7 @@ class Callback:
 
 def describe(tier):
     return {
-        "rule": "serial: for every harness cube (1,2,3,4,6 sub-cubes; both cube types; incl. no extra axis) and EVERY invocation index i of the callback, the callback raises a "
+        "rule": "serial (each case on a fresh cube AND on a cube that has already completed one evaluation): for every harness cube (1,2,3,4,6 sub-cubes; both cube types; incl. no extra axis) and EVERY invocation index i of the callback, the callback raises a "
         "fresh exception on its i-th call: calculate must raise that very object; with a never-raising callback it must return the serial result and the callback must "
         "have been consulted exactly once per sub-cube; afterwards the SAME cube and aggregate objects, callback disarmed, must give bit-for-bit the result of a fresh "
         "evaluation. Pooled: for EVERY subset S of invocation ordinals and EVERY schedule within the preemption bound (scheduling point at every line/instruction of "
@@ -82,17 +82,24 @@ def expected(h):
     return _expected[h]
 
 
-def serial_case(h, at, exc="Interrupted"):
-    """Returns violation dict or None, and the number of callback calls."""
+def serial_case(h, at, exc="Interrupted", warm=False):
+    """Returns violation dict or None, and the number of callback calls.  warm: the cube and the function objects have already been through one
+    complete evaluation (no callback installed) when the interrupting callback arrives."""
     k = harness.subcubes(h)
     cube, funcs = harness.make(h, parallel=False)
+    if warm:
+        try:
+            if harness.freeze(cube.calculate(funcs)) != expected(h):
+                return {"harness": h, "mode": "serial", "at": sorted(at), "exc": exc, "warm": True, "kind": "result-differs", "detail": "first evaluation differs from the expected result"}
+        except Exception as e:  # noqa
+            return {"harness": h, "mode": "serial", "at": sorted(at), "exc": exc, "warm": True, "kind": "raised", "detail": "first evaluation raised %r" % (e,)}
     cb = Callback(at, exc)
     cube.check_interrupt = cb
     try:
         out = ("ok", cube.calculate(funcs))
     except Exception as e:  # noqa
         out = ("exc", e)
-    case = {"harness": h, "mode": "serial", "at": sorted(at), "exc": exc}
+    case = {"harness": h, "mode": "serial", "at": sorted(at), "exc": exc, "warm": warm}
     if at and min(at) < k:
         if out[0] != "exc":
             return dict(case, kind="not-raised", detail="callback raised on invocation %d but calculate returned" % min(at))
@@ -228,10 +235,11 @@ def main(tier, all_violations=False, t0=None):
         if k > 50:
             ats = [(), (0,), (1,), (k // 2,), (k - 2,), (k - 1,), (k,)]
         for at in ats:
-            serial_cases += 1
-            v = serial_case(h, at)
-            if v and viol is None:
-                viol = v
+            for warm in (False, True):
+                serial_cases += 1
+                v = serial_case(h, at, warm=warm)
+                if v and viol is None:
+                    viol = v
         # every other exception class, at every single invocation
         for exc in EXC_ALT:
             for i in (range(k) if k <= 50 else (0, k - 1)):
@@ -309,7 +317,7 @@ def main(tier, all_violations=False, t0=None):
 
 def replay(case, site=None):
     if case.get("mode") == "serial":
-        v = serial_case(case["harness"], tuple(case["at"]), case.get("exc") or "Interrupted")
+        v = serial_case(case["harness"], tuple(case["at"]), case.get("exc") or "Interrupted", warm=bool(case.get("warm")))
         print(v)
         return v is not None
     sched.patch_pools()
